@@ -436,6 +436,8 @@ type PreState struct {
 	LastOK bool    `json:"lastOK"`
 	Last   LtxObs  `json:"last"` // newest local level-0 file
 	Pos    int     `json:"pos"`
+	Synced int     `json:"synced"` // syncState.lastSyncedWALOffset in frames (0 = nothing synced, -1 = not on a frame boundary)
+	Since  bool    `json:"since"`  // syncState.syncedSinceCheckpoint
 }
 
 func EmptyPre() PreState {
